@@ -145,6 +145,17 @@ func init() {
 			},
 		},
 		propCheck{
+			ID: "C12", Level: "exploration",
+			Rule: "one evaluation = one simulated history over two identical engines: 13 parameterised statement templates (SELECT with =, >, IN, BETWEEN, <=>, LIMIT ?, parameter-only SELECT, expression with a parameter; INSERT / UPDATE / DELETE) executed on engine 1 through SQL PREPARE + EXECUTE USING @vars (handles re-executed with new values) or through Engine.QueryWithBindings, and on engine 2 as text with the values spliced in as literals by the harness; parameter values: NULL, small and boundary integers, doubles, strings with quotes, backslashes, %, _ and empty; an admin history (ALTER TABLE ADD/DROP/MODIFY COLUMN, DROP + CREATE TABLE, index changes, DML) is applied to both between executions; oracle: result rows, OK counts, error kind and table contents agree at every step; non-trivial = a parameterised statement ran; distinct = distinct hash of the (template, path) sequence",
+			Real: []string{"PREPARE/EXECUTE/DEALLOCATE, Engine.QueryWithBindings, bind-variable substitution, prepared plan caching and re-analysis after schema changes"},
+			Stub: []string{"none below the engine API; both engines are real and fed the same logical history"},
+			Assumptions: []string{"the literal form is written by the harness's own quoting ('' and \\\\ doubling)", "the binary wire protocol path is not part of this sub-check"},
+			Subs: []subCheck{
+				{ID: "C12", World: "sqlsim", Quick: 6000, Thorough: 300000, QuickCap: 80, ThoroughCap: 1500, GC: "100",
+					Probes: []string{"handle-re-executed", "schema-changed-under-handle"}},
+			},
+		},
+		propCheck{
 			ID: "C20", Level: "exploration",
 			Rule: "one evaluation = one simulated history on a table with an AUTO_INCREMENT primary key (INT / BIGINT / INT UNSIGNED / TINYINT UNSIGNED, optional UNIQUE key for failing inserts): multi-row inserts mixing NULL / 0 / omitted / explicit ids (above the maximum, unused below it, existing), inserts failing at a drawn row, injected storage errors, deletes of the maximum row and of everything, ALTER TABLE .. AUTO_INCREMENT = n below and above the maximum, BEGIN/COMMIT/ROLLBACK, session drops, 1-2 sessions with never-overlapping writers; oracle: every generated and stored value is unique among all generated values ever stored, greater than every value stored before the statement, increasing inside a statement; OkResult.InsertID and LAST_INSERT_ID() = first generated value of the session's last successful generating insert, unchanged by failed inserts and by other sessions; non-trivial = 2 sessions or a fault fired; distinct = distinct hash of the action/outcome sequence",
 			Real: []string{"insert iterator auto-increment handling, accumulator OK result", "memory table editor auto-increment counter, ALTER TABLE AUTO_INCREMENT"},
